@@ -25,13 +25,17 @@ Proof. vm_compute. reflexivity. Qed.
 (* the go that follows searches (premise of tei_position_exact, tei_fresh_searcher, tei_limit_within_clock), the position it
    searches is live and the searcher's move is legal there (premises of tei_go_answered, locally), it gets the side to move's
    budget (60 s / 5 = 12 s), and the engine prints the two lines *)
-Example tei_example_go :
-  exists g m, sr_go ex_step = Some g /\ e_mm ex_e' = None /\
-    live (g_pos g) /\ legal gen_basis (g_pos g) m /\ g_limit g = Some 12000000000%Z /\ g_fresh g = true /\
-    sr_out ex_step = [info_line [m] 0 1 1; bestmove_line m] /\
-    bestmove_line m = str "bestmove b2".
-Proof.
-  do 2 eexists. split; [vm_compute; reflexivity|]. split; [vm_compute; reflexivity|].
-  split; [eexists; vm_compute; reflexivity|]. split; [eexists; vm_compute; reflexivity|].
-  split; [vm_compute; reflexivity|]. split; [vm_compute; reflexivity|]. split; vm_compute; reflexivity.
-Qed.
+Definition ex_m : rmove := {| Move.mX := 1; Move.mY := 1; Move.mT := 2; Move.mS := 0 |}.
+Definition ex_p : position := Eval vm_compute in match e_pos ex_e' with Some p => p | None => from_squares gen_basis 3 [] 0 end.
+Definition ex_q : position := Eval vm_compute in match tmove gen_basis ex_p ex_m with Move.Ok q => q | _ => ex_p end.
+
+Example tei_example_pos : e_pos ex_e' = Some ex_p /\ e_mm ex_e' = None /\ e_size ex_e' = 3%Z.
+Proof. vm_compute. repeat split; reflexivity. Qed.
+Example tei_example_searched : sr_go ex_step = Some {| g_pos := ex_p; g_limit := Some 12000000000%Z; g_fresh := true |}.
+Proof. vm_compute. reflexivity. Qed.
+Example tei_example_live : live ex_p.
+Proof. eexists. vm_compute. reflexivity. Qed.
+Example tei_example_legal : legal gen_basis ex_p ex_m.
+Proof. exists ex_q. vm_compute. reflexivity. Qed.
+Example tei_example_out : sr_out ex_step = [info_line [ex_m] 0 1 1; bestmove_line ex_m] /\ bestmove_line ex_m = str "bestmove b2".
+Proof. vm_compute. split; reflexivity. Qed.
